@@ -141,35 +141,15 @@ Lemma acquire_x_ok cf s c k l b0 :
   l < nlock s -> lkey s l = k -> is_zero_max cf = false ->
   Inv cf (fst (acquire_x cf s c k l)) /\ good (fst (acquire_x cf s c k l)) (snd (acquire_x cf s c k l)).
 Proof.
-  intros IJ Hp Hc Hd Hl Hk Hz. pose proof IJ as [I J]. unfold acquire_x.
-  assert (Hne : ~ engaged (locks s l) c).
-  { eapply LP_idle_not_engaged; [apply (I_lp _ _ I)|]. now rewrite Hp. }
-  assert (Hentry : Inv cf (set_phase (set_fl s (fl_or_uncounted (fl s) (uncounted_at k (dict s)))) c (CEntryCk k))).
-  { assert (I' : Inv1 cf (set_fl s (fl_or_uncounted (fl s) (uncounted_at k (dict s)))))
-      by (apply inv1_fl; [exact I| | |]; sm; auto).
-    assert (J' : Inv2 cf (set_fl s (fl_or_uncounted (fl s) (uncounted_at k (dict s))))).
-    { apply inv2_fl; [exact J| | | | |]; sm; auto. intros H. apply orb_false_elim in H. tauto. }
-    split.
-    - apply inv1_phase_noref; [exact I'|exact Hc|sm; now rewrite Hp|reflexivity|discriminate|discriminate].
-    - apply inv2_phase; [exact J'| |sm; apply (I_nodup _ _ I)]. sm. intros; congruence. }
-  destruct (Lock.owner (locks s l)) as [ow|] eqn:Eo; destruct (Lock.waiters (locks s l)) as [|w ws] eqn:Ew;
-    try (cbn [fst snd]; split; [exact Hentry|apply good_plain; discriminate]).
-  all: rewrite lock_do_eq; sm;
-    destruct (acq_begin_cases (locks s l) c (L_inv _ _ _ _ _ (I_lp _ _ I) l) Hne) as [[E Hh]|[E Hph]]; rewrite E.
-  all: try (exfalso; revert E; cbn [Lock.step];
-            destruct (not_engaged_idle _ _ Hne) as [Hi _]; rewrite Hi, Eo, Ew; cbn;
-            repeat match goal with |- context [if ?b then _ else _] => destruct b end; cbn; discriminate).
-  all: rewrite lock_do_eq; cbn [fst snd]; (split; [|apply good_plain; discriminate]).
-  all: set (s1 := set_lock (set_phase s c (CLockWait k l (now s) (cur s))) l
-                           (fst (Lock.step (locks s l) (Lock.AcqBegin c))));
-    assert (I1 : Inv cf s1) by (eapply mark_inv; eauto; left; exact Hph);
-    assert (Hp1 : phase s1 c = CLockWait k l (now s) (cur s)) by (unfold s1; sm; apply upd_same);
-    destruct I1 as [I1 J1];
-    assert (Heng : engaged (fst (Lock.step (locks s1 l) (Lock.Cancel c))) c)
-      by (destruct (cancel_same (locks s1 l) c) as [E1 E2]; unfold engaged; rewrite E1, E2;
-          apply (L_wait _ _ _ _ _ (I_lp _ _ I1) _ _ _ _ _ Hp1));
-    (split; [exact (inv1_lock_only cf s1 c k l (now s) (cur s) (Lock.Cancel c) I1 Hp1 eq_refl Heng)
-            |apply inv2_set_lock, J1]).
+  intros IJ Hp Hc Hd Hl Hk Hz. pose proof IJ as [I J]. unfold acquire_x. cbn [fst snd].
+  split; [|apply good_plain; discriminate].
+  assert (I' : Inv1 cf (set_fl s (fl_or_uncounted (fl s) (uncounted_at k (dict s)))))
+    by (apply inv1_fl; [exact I| | |]; sm; auto).
+  assert (J' : Inv2 cf (set_fl s (fl_or_uncounted (fl s) (uncounted_at k (dict s))))).
+  { apply inv2_fl; [exact J| | | | |]; sm; auto. intros H. apply orb_false_elim in H. tauto. }
+  split.
+  - apply inv1_phase_noref; [exact I'|exact Hc|sm; now rewrite Hp|reflexivity|discriminate|discriminate].
+  - apply inv2_phase; [exact J'| |sm; apply (I_nodup _ _ I)]. sm. intros; congruence.
 Qed.
 
 Ltac rejected IJ := cbn [fst snd]; split; [exact IJ|apply good_plain; discriminate].
